@@ -273,7 +273,7 @@ def post_run(tier, seed):
     for i, (a, b) in enumerate(zip(mine, theirs)):
         if a != b:
             sc = gen(run_seed(seed, ID, i), tier)
-            sc.update(property=ID, verif_seed=seed, run=i)
+            sc.update(property=ID, verif_seed=seed, run=i, _hashseed_pair=[int(os.environ.get("PYTHONHASHSEED", "0") or 0), 4242])
             viols.append((i, sc, [("C19/hash_seed_dependence", "world %d: same scenario, same random tape, event-log digest %s under PYTHONHASHSEED=0 and %s "
                                    "under 4242 in a fresh interpreter (the free-station candidates or their order depend on the hash seed)" % (i, a, b))]))
             if len(viols) >= 2:
